@@ -1,4 +1,4 @@
-import Dbus.Props.C01
+import Dbus.Proofs.WireIff
 import Dbus.Model.Loader
 /-
   Stability of message framing under appended bytes, and independence from chunking.
@@ -196,7 +196,7 @@ theorem headerVals_append {mx : Nat} {bs : Bytes} {f : Frame} (hf : frameOf mx b
   cases hd : decodeFields f.e (fuelFor bs.length) 0 headerTypes 0 bs with
   | some p =>
     obtain ⟨vs, r⟩ := p
-    have := Props.C01.validate_prefix_stable f.e headerTypes bs x vs r hd
+    have := validate_prefix_stable f.e headerTypes bs x vs r hd
     exact headerVals_of_decode f bs vs r (r ++ x) _ (bs ++ x) hd this rfl
   | none =>
     cases hd' : decodeFields f.e (fuelFor (bs ++ x).length) 0 headerTypes 0 (bs ++ x) with
@@ -236,7 +236,7 @@ theorem headerVals_append {mx : Nat} {bs : Bytes} {f : Frame} (hf : frameOf mx b
         have := hlen_ge f
         unfold Frame.total at htot
         omega
-      obtain ⟨r0, _, hdec⟩ := Props.C01.validate_prefix_reflects f.e headerTypes bs x _ r' hd' hlen
+      obtain ⟨r0, _, hdec⟩ := validate_prefix_reflects f.e headerTypes bs x _ r' hd' hlen
       rw [hd] at hdec; cases hdec
 
 
